@@ -174,11 +174,12 @@ func syncDumpTables(repo string) (string, string, error) {
 			})
 		}
 		if fd.Name.Name == "DumpTo" && rt == "Dumper" {
-			for _, st := range fd.Body.List {
-				if is, ok := st.(*ast.IfStmt); ok {
+			ast.Inspect(fd.Body, func(n ast.Node) bool {
+				if is, ok := n.(*ast.IfStmt); ok {
 					conds = append(conds, "  "+coqStr(exprString(fset, is.Cond)))
 				}
-			}
+				return true
+			})
 		}
 	}
 
